@@ -1009,3 +1009,22 @@ class IptagGet:
     def ensures_reads_this_tag_of_this_chip(iptag, x, y, result, _trace):
         return (len(_trace) == 1 and _trace[0] == ("scp", x, y, 0, 26, 2 * 65536 + iptag, 1, (("expected_args", 0),))
                 and result.parsed_from == 77)
+
+
+@contract("rig/machine_control/machine_controller.py::MachineController.set_led", variant="one_led")
+class MCSetLedOne:
+    """one LED of one chip: one LED command to the monitor of exactly the chip named, with the action (3 on, 2 off, 1 toggle when
+    none is given) in that LED's two bits and nothing in the others"""
+    properties = ("C18",)
+    params = dict(self=TRec("MachineController"), led=TInt(0, 3), action=TOpt(TBool()), x=TInt(0, 255), y=TInt(0, 255))
+    externals = {"MachineController._send_scp": _mc_scp_all}
+    options = {"decorators": {"use_contextual_arguments": "identity"}, "no_merge": True, "int_class": "rig/machine_control/consts.py::LEDAction"}
+    assumptions = ["use_contextual_arguments as the identity; _send_scp (MCSendScp) is recorded"]
+
+    def native(x):
+        raise __import__("pyvc.replay", fromlist=["OutsideHarness"]).OutsideHarness()
+
+    def ensures_this_led_of_this_chip(led, action, x, y, _trace):
+        code = 1 if action is None else (3 if action else 2)
+        return (len(_trace) == 1 and _trace[0][:4] == ("scp", x, y, 0)
+                and _trace[0][5] == (("arg1", code * 2 ** (2 * led)), ("expected_args", 0)))
